@@ -451,8 +451,17 @@ func (ps *pathState) assertObl(in *Interp, id string, c *Term) {
 		return
 	case Sat:
 		ex.addViolation(in, ps, id, "assertion can fail", m)
-		// continue under the assertion if possible
-		ps.assume(in, c)
+		// continue under the assertion where it can hold; where it cannot, continue unconstrained
+		func() {
+			defer func() {
+				if r := recover(); r != nil {
+					if e, ok := r.(*engineAbort); !ok || e.Kind != "infeasible" {
+						panic(r)
+					}
+				}
+			}()
+			ps.assume(in, c)
+		}()
 	default:
 		ex.addInconclusive(Inconclusive{Kind: "solver-unknown", Msg: "assert " + id, Path: append([]int32(nil), ps.trace...)})
 	}
